@@ -279,6 +279,7 @@ func runC10(c *Ctx, pr *PropertyRun) {
 		pk.ExpectControl("propkey")
 	}
 
+	propSetTables(c, pr, "C10", []string{pkgCaldav, pkgCarddav})
 	c10Multiget(c, pr)
 	c10ErrorResponse(c, pr)
 	decodePropTable(c, pr, "C10")
@@ -540,6 +541,7 @@ func runC05(c *Ctx, pr *PropertyRun) {
 		pk.ExpectControl("propkey")
 	}
 
+	propSetTables(c, pr, "C05", []string{pkgWebdav})
 	c05ReadDir(c, pr, "C05")
 	truncateRule(c, pr, "C05", nil)
 
